@@ -184,6 +184,7 @@ class _Link:
         self.writes = 0
         self.cur_op = -1
         self.bytes_delivered = 0
+        self.resp_delivered: set[int] = set()  # operations in which a complete response unit was handed to the host
 
     # device side -----------------------------------------------------
     def covers(self, nbytes: int, kinds: tuple) -> bool:
@@ -199,6 +200,11 @@ class _Link:
         if not self.plan.fired:
             self.units.append(dict(meta, start=self.off, len=len(raw), op=self.cur_op))
             self.off += len(raw)
+
+    def _note(self, role: str) -> None:
+        """A unit is about to be handed over whole (not cut, not altered by a link fault)."""
+        if not self.silent and role.startswith("resp_"):
+            self.resp_delivered.add(self.cur_op)
 
     def count_read(self) -> None:
         self.reads += 1
@@ -216,6 +222,7 @@ class SerialLink(_Link):
         """Emit a unit of the fault-free behaviour (link-level faults are applied here)."""
         if not self.covers(len(raw), LINK_KINDS_SERIAL):
             self._account(raw, meta)
+            self._note(meta.get("role", ""))
             self._deliver(raw)
             return
         i = self.plan.pos - self.off
@@ -233,8 +240,9 @@ class SerialLink(_Link):
         if kind == "truncate":
             self.silent = True
 
-    def emit_after_fault(self, raw: bytes) -> None:
+    def emit_after_fault(self, raw: bytes, role: str = "") -> None:
         """Units of the *faulted* behaviour (not part of the fault-free table)."""
+        self._note(role)
         self._deliver(raw)
 
     def _deliver(self, raw: bytes) -> None:
@@ -279,9 +287,11 @@ class HidLink(_Link):
                 self.silent = True
             return
         self._account(raw, meta)
+        self._note(meta.get("role", ""))
         self._deliver(raw)
 
-    def emit_after_fault(self, raw: bytes) -> None:
+    def emit_after_fault(self, raw: bytes, role: str = "") -> None:
+        self._note(role)
         self._deliver(raw)
 
     def _deliver(self, raw: bytes) -> None:
@@ -310,6 +320,7 @@ class Phase:
         self.finish = finish
         self.done = 0  # bytes moved so far
         self.packets: list[int] = []
+        self.received = bytearray()  # for 'in': the bytes taken in, in the order of arrival
 
 
 class MbootCore:
@@ -351,6 +362,7 @@ class MbootCore:
         self.last_final_status: Optional[int] = None  # what the device reported (or tried to) for the last command
         self.commands = 0
         self.resets = 0
+        self.in_phases: list[Phase] = []  # every host-to-device data phase the device opened, in order
 
     # -- helpers
     @staticmethod
@@ -398,6 +410,8 @@ class MbootCore:
             self.last_final_status = struct.unpack_from("<I", initial, 4)[0]
         else:
             self.last_final_status = None
+            if phase.direction == "in":
+                self.in_phases.append(phase)
         return initial, phase
 
     def _initial_error(self, tag: int, status: int) -> bytes:
@@ -584,6 +598,7 @@ class MbootCore:
             chunk = chunk[:room]
         assert ph.sink is not None
         ph.sink(bytes(chunk), ph.done)
+        ph.received += chunk
         ph.done += len(chunk)
         ph.packets.append(len(chunk))
         self.log.append(("data_in", len(chunk)))
@@ -729,7 +744,7 @@ class MbootSerialDevice(_Transport):
         new = self._faulted_response(payload, len(wire), role)
         if new is not None:
             kind = self.link.plan.kind
-            self.link.emit_after_fault(frame(CMD, new))
+            self.link.emit_after_fault(frame(CMD, new), "resp_" + role)
             if kind == "errstatus" and role == "initial":
                 self.phase = None
                 then = None
@@ -779,7 +794,7 @@ class MbootSerialDevice(_Transport):
             self.out_chunks = []
             final = self.core.phase_final(ph, S_ABORT_DATA_PHASE)
             self.phase = None
-            self.link.emit_after_fault(frame(CMD, final))
+            self.link.emit_after_fault(frame(CMD, final), "resp_final")
             self.after_ack = None
             return
         ph.done += len(chunk)
@@ -832,7 +847,7 @@ class MbootSerialDevice(_Transport):
             self.link.emit_after_fault(bytes([START, ABORT]))
             final = self.core.phase_final(ph, S_ABORT_DATA_PHASE)
             self.phase = None
-            self.link.emit_after_fault(frame(CMD, final))
+            self.link.emit_after_fault(frame(CMD, final), "resp_final")
             return
         if not self._ack("ack_data"):
             return
@@ -877,7 +892,7 @@ class MbootHidDevice(_Transport):
         new = self._faulted_response(payload, len(wire), role)
         if new is not None:
             kind = self.link.plan.kind
-            self.link.emit_after_fault(self._report(HID_CMD_IN, new))
+            self.link.emit_after_fault(self._report(HID_CMD_IN, new), "resp_" + role)
             return not (kind == "errstatus" and role == "initial")
         ph = ph or self.phase
         self.link.emit(wire, {"role": "resp_" + role, "resp_tag": payload[0], "phase": ph.direction if ph else None, "packets": len(ph.packets) if ph else 0})
@@ -908,7 +923,7 @@ class MbootHidDevice(_Transport):
                     self.link.emit_after_fault(bytes([HID_DATA_IN, 0, 0, 0]))
                     final = self.core.phase_final(phase, S_ABORT_DATA_PHASE)
                     self.phase = None
-                    self.link.emit_after_fault(self._report(HID_CMD_IN, final))
+                    self.link.emit_after_fault(self._report(HID_CMD_IN, final), "resp_final")
                     return
                 phase.done += len(chunk)
                 phase.packets.append(len(chunk))
@@ -944,7 +959,7 @@ class MbootHidDevice(_Transport):
                 link.emit_after_fault(bytes([HID_DATA_IN, 0, 0, 0]))
                 final = self.core.phase_final(ph, S_ABORT_DATA_PHASE)
                 self.phase = None
-                link.emit_after_fault(self._report(HID_CMD_IN, final))
+                link.emit_after_fault(self._report(HID_CMD_IN, final), "resp_final")
                 return
         self.core.phase_in(ph, payload)
         if ph.done >= ph.count:
